@@ -58,6 +58,8 @@ def jobs(tier, seed):
     for d in extra[:5]:
         if len(rt.variables_of(d)) == 2:
             add(d, routes=["diff_at_all"], reuse_seq=[["obj", "q"]])
+            add(d, routes=["diff_at_all"], reuse_seq=[["comp", "q"]])
+            add(d, routes=["diff_at_all"], reuse_seq=[["comp", ""], ["expr", "rev", "q"]])
             add(d, routes=["diff_at_early_all"], reuse_seq=[["obj", "q"], ["expr", "eval", "q"]])
     add(["Exponential", fam.A(1), ["sym", "b"]], assume=[["gt", "b", 0]])
     add(["Logarithm", fam.A(1), ["sym", "b"]], assume=[["gt", "b", 0], ["ne", "b", 1]])
